@@ -531,6 +531,9 @@ class Gen:
             return False                                   # probe put_below_missing_dir_of_same_name
         if op in ("upload", "post_uri", "mkdirc_named", "mkdiri_named") and look[0] == "missing":
             return False                                   # probes *_missing_last_dir
+        if op in ("mkdiri", "mkdiri_named") and look[0] == "missing" and any(
+                k["child"]["w"] or (k["child"]["id"] not in ("fc1", "fc2", "flit", "f2") and k["child"]["id"] not in self.web.imm) for k in q["kids"]):
+            return False                                   # probe mkdir_immutable_bad_child_below_missing_dir
         if op in ("put_file", "put_uri", "mkdir", "mkdir_named", "mkdirc_named", "mkdiri_named", "post_uri"):
             return kind != "other"
         if op in ("mkdirc", "mkdiri"):
@@ -685,6 +688,8 @@ PROBES = {
     "post_uri_missing_last_dir": [Q("post_uri", "POST", path=["a"], name="e1", cap=F("fc1"))],
     "mkdir_with_children_named_missing_dir": [Q("mkdirc_named", "POST", path=["a"], name="b", kids=[KID("e1", F("fc1"), "m1")])],
     "mkdir_immutable_named_missing_dir": [Q("mkdiri_named", "POST", path=["a"], name="b", kids=[KID("e1", F("fc1"), "m1")])],
+    # an error answer (a child that is not deep-immutable) that leaves the intermediate directory behind
+    "mkdir_immutable_bad_child_below_missing_dir": [Q("mkdiri", "POST", path=["a", "b"], kids=[KID("e1", DD("d2"), "m1")])],
     # a missing directory with the same name as the last element of the URL
     "put_below_missing_dir_of_same_name": [Q("put_file", "PUT", path=["a", "a"], content="c1")],
     # when_done= is ignored when POST /uri?t=upload makes a mutable file
